@@ -100,7 +100,6 @@ TrDEnd ==
   /\ Live("DEnd") /\ UNCHANGED st
   /\ IF Ev.out = "ok" THEN
        Note(IterClauses(st.d, Ev.m, Total(Ev))
-            \cup Cl(Ev.wild = 0, "ReturnedFlowsWithinScale")
             \cup Cl(Ev.m = st.lastm, "ReturnedFlowsAreLastIteration")
             \cup Cl(\A i \in 1..Len(Ev.m) : st.d.lim[i] > 0 => Ev.m[i] <= st.d.lim[i] + 1,
                     "LimitNeverExceeded"))
